@@ -26,7 +26,37 @@ def _RunOne(case):
     res = {'status': 'internal', 'stage': 'harness', 'cls': type(e).__name__,
            'msg': str(e)[:500], 'preds': {}}
   res['text'] = text
+  if case.get('stages') and res.get('status') == 'ok':
+    res['stages'] = _Stages(case, text)
   return res
+
+
+def _Stages(case, text):
+  """pi(rules0) after parsing and pi(rules2) after recursion unfolding and
+  functor expansion, restricted to what the queried predicates reach."""
+  from harness import project
+  m = impl.Mods()
+  inline_of = {p['name']: p.get('inline') for p in case['prog']['preds']}
+  out = []
+  try:
+    rules0 = m['parse'].ParseFile(text)['rule']
+  except BaseException as e:  # pylint: disable=broad-except
+    return [{'name': 'parsed', 'skipped': 'parse: %s' % type(e).__name__}]
+  for name, get in (('parsed', lambda: rules0),
+                    ('made', lambda: m['universe'].LogicaProgram(rules0).rules)):
+    try:
+      prog = project.Project(get(), case['query'], inline_of)
+      have = {p['name'] for p in prog['preds']}
+      if not set(case['query']) <= have:
+        out.append({'name': name, 'skipped': 'predicate missing'})
+        continue
+      out.append({'name': name, 'prog': prog})
+    except project.Unsupported as e:
+      out.append({'name': name, 'skipped': 'unsupported: %s' % e})
+    except BaseException as e:  # pylint: disable=broad-except
+      out.append({'name': name, 'skipped': '%s: %s' % (type(e).__name__,
+                                                     str(e)[:100])})
+  return out
 
 
 def RunImpl(cases, workers=None):
@@ -89,7 +119,9 @@ def _Obs(case, res, preds):
 def TraceLine(case, res, base_res=None):
   line = {'id': case['id'], 'prog': NormProg(case['prog']), 'dev': [],
           'obs': _Obs(case, res, case['query']), 'base': [], 'qmap': [],
-          'bobs': []}
+          'bobs': [],
+          'stages': [{'name': s['name'], 'prog': NormProg(s['prog'])}
+                     for s in res.get('stages', []) if 'prog' in s]}
   if case.get('base') is not None:
     line['base'] = [NormProg(case['base'])]
     line['qmap'] = [{'b': b, 'v': v, 'ordered': bool(o)}
